@@ -1365,9 +1365,12 @@ static int rep_len;
 
 static void vc_repeat(void)
 {
-	int i;
-	for (i = 0; i < MAX(1, vi_arg1); i++)
-		term_push(rep_cmd, rep_len);
+	char cnt[16];
+	if (vi_arg1 > 1) {	/* the remaining repetitions, after this one */
+		snprintf(cnt, sizeof(cnt), "%d.", vi_arg1 - 1);
+		term_push(cnt, strlen(cnt));
+	}
+	term_push(rep_cmd, rep_len);
 }
 
 static void vc_execute(void)
@@ -1376,7 +1379,6 @@ static void vc_execute(void)
 	int lnmode;
 	int c = (c = vi_read()) == '\\' ? 0x80 | vi_read() : c;
 	char *buf = NULL;
-	int i;
 	if (TK_INT(c))
 		return;
 	if (c == '@')
@@ -1385,8 +1387,12 @@ static void vc_execute(void)
 	if (reg >= 0)
 		buf = reg_get(reg, &lnmode);
 	if (buf != NULL) {
-		for (i = 0; i < MAX(1, vi_arg1); i++)
-			term_push(buf, strlen(buf));
+		char cnt[16];
+		if (vi_arg1 > 1) {	/* the remaining executions, after this one */
+			snprintf(cnt, sizeof(cnt), "%d@@", vi_arg1 - 1);
+			term_push(cnt, strlen(cnt));
+		}
+		term_push(buf, strlen(buf));
 	}
 }
 
